@@ -352,6 +352,7 @@ func genScenario(t *rapid.T, o genOpts) *scn.Scenario {
 		sc.Phases = append(sc.Phases, ph)
 	}
 	sc.PreShutdownSleepUs = rapid.SampledFrom([]int{0, 0, 0, 0, 200, 3000, 12000, 25000}).Draw(t, "pre_shutdown_sleep_us")
+	sc.ExtraShutdownCallers = rapid.SampledFrom([]int{0, 0, 0, 1, 2}).Draw(t, "extra_shutdown_callers")
 	// (rapid draws the bounds of a range far more often than 1/n: an interior value keeps the share near 1/60 of
 	// the free scenarios, about 0.5 % of all; the silence job covers the targeted shape, this one the ordinary traffic)
 	if sc.Sched == "free" && rapid.IntRange(0, 59).Draw(t, "long_silence") == 17 {
@@ -528,6 +529,7 @@ func record(sc *scn.Scenario, rep *scn.Report, prefix string) {
 	add(twins, "same_text_not_identical_drawn")
 	add(len(rep.Internal) > 0, "logger_internal_lines_seen")
 	add(sc.PreShutdownSleepUs > 0, "shutdown_delayed")
+	add(sc.ExtraShutdownCallers > 0, "concurrent_shutdown_callers")
 	add(sc.SilenceClauseApplies(), "free_writer_two_seconds_of_silence_before_shutdown")
 	add(sc.SilenceClauseApplies() && sc.AdapterPace == 4, "silence_with_slow_adapter")
 	add(sc.SilenceClauseApplies() && rep.LastInFinal, "last_line_logged_during_final_adapter_call_of_a_batch_then_silence")
